@@ -56,10 +56,10 @@ static const Profile kProfiles[kProfileCount] = {
 
 struct WindowDef { uintptr_t base; size_t size; };
 static const WindowDef kWindows[kWinCount] = {
-  {0x10000000ull, 0x60000000ull},           // low: below 2 GiB
+  {0x10000000ull, 0x40000000ull},           // low: below 2 GiB
   {0x7e9000000000ull, 0x1000000000ull},     // high: 2^46..2^47
-  {0x78000000ull, 0x10000000ull},           // straddles 2^31
-  {0xF8000000ull, 0x10000000ull},           // straddles 2^32
+  {0x60000000ull, 0x40000000ull},           // straddles 2^31
+  {0xC0000000ull, 0x80000000ull},           // straddles 2^32
   {0x200000000000ull, 0x1000000000ull},     // mid (2^45)
 };
 
@@ -330,7 +330,14 @@ extern "C" void* __wrap_mmap(void* addr, size_t len, int prot, int flags, int fd
   uintptr_t want;
   if (s.pending_valid && s.pending_size == len && !huge) { want = s.pending_addr; s.pending_valid = false; }
   else want = vm::choose(len, huge);
-  if (!want) { errno = ENOMEM; return MAP_FAILED; }
+  if (!want) {
+    // The simulated address-space window is exhausted: a legitimate ENOMEM, accounted like an injected fault so that
+    // oracles which demand success in fault-free runs know about it.
+    count("vm.window_exhausted");
+    if (g.in_run) { g.fired[kFaultMmap]++; logf("mmap +%zu: window exhausted", len); }
+    errno = ENOMEM;
+    return MAP_FAILED;
+  }
   void* p = __real_mmap(reinterpret_cast<void*>(want), len, prot, flags | MAP_FIXED_NOREPLACE, fd, off);
   if (p == MAP_FAILED) {
     int e = errno;
